@@ -8,7 +8,7 @@ Quantifiers: every program `P` of handlers (any `can_handle`, any callbacks), ev
 of steps = iterations with ANY environment (clock advances, at most one datagram, nested packets) interleaved with client calls.
 All statements are proved by induction over the step list / the handler list / the datagram nesting.
 -/
-import GeckoModel.Proofs.ThreadedHandler
+import GeckoModel.Proofs.ThreadedHandshake
 
 namespace GeckoModel.C20
 open GeckoModel GeckoModel.Generated GeckoModel.Threaded
@@ -89,7 +89,7 @@ theorem first_match (P : Prog σ) (inner : Inner σ) (d : Dgram) (e : Engine σ)
     rw [hsplit, List.find?_append]
     have : pre.find? (fun g => (P.spec g).canHandle d) = none := by
       rw [List.find?_eq_none]; intro g hg; simp [hpre g hg]
-    simp [this, List.find?_cons, hh]
+    simp [this, hh]
   rw [this]
 
 /-- index form: `handlers[i]` with `i` minimal such that `can_handle` -/
@@ -186,5 +186,378 @@ theorem run_survives (P : Prog σ) (hnr : NoRaise P) (hlf : ∀ c, (P.loopFunc c
     | queueSend h d => rfl
     | register h => rfl
     | create h => rfl
+
+/-! ## answered_removed -/
+
+/-- **answered**: if during the receive phase of an iteration the reply reaches handler `h` (`Answered`: flagged for removal,
+timeout reset by `handled()`), and no callback re-queues / re-creates / re-registers `h` (`Quiet`), then this iteration makes NO
+`queue_send` for `h` (no retransmission: the loop phase finds it fresh) and, the engine still running, `h` is gone from the
+handler list at this iteration's clean-up. -/
+theorem answered_removed (P : Prog σ) (h : Nat) (hq : Quiet P h) (e : Engine σ) (env : Env) (ha : e.alive = true)
+    (hans : Answered h (afterRecv P e env).1) :
+    enqsOf h (engineIter P e env).2 = [] ∧ ((engineIter P e env).1.alive = true → h ∉ (engineIter P e env).1.handlers) := by
+  obtain ⟨_, _, _, _, n0⟩ := afterSend_facts P h e env
+  obtain ⟨qf, _⟩ := afterRecv_q P h hq e env
+  obtain ⟨s2, n2⟩ := loopAll_fresh P h (afterRecv P e env).1.handlers (afterRecv P e env).1 hans.2
+  have e0 : enqsOf h (afterSend P e env).2 = [] := by unfold enqsOf; rw [n0]; rfl
+  have n2' : enqsOf h (afterLoop P e env).2 = [] := n2
+  have hrem : ((afterLoop P e env).1.hs h).remove = true := by
+    show ((loopAll P _ _).1.hs h).remove = true
+    rw [s2]; exact hans.1
+  rw [engineIter_unfold P e env ha]
+  split
+  · refine ⟨?_, fun _ => ?_⟩
+    · show enqsOf h (_ ++ (_ ++ (_ ++ _))) = []
+      rw [enqsOf_append, enqsOf_append, enqsOf_append, e0, qf.noEnq, n2']
+      unfold enqsOf; rw [(loopFuncPhase_facts P _).2.2.2.2]; rfl
+    · show h ∉ (loopFuncPhase P (cleanup (afterLoop P e env).1)).1.handlers
+      rw [(loopFuncPhase_facts P _).1]
+      unfold cleanup
+      simp only [List.mem_filter]
+      intro x
+      rw [hrem] at x
+      simp at x
+  · refine ⟨?_, fun x => ?_⟩
+    · show enqsOf h (_ ++ (_ ++ _)) = []
+      rw [enqsOf_append, enqsOf_append, e0, qf.noEnq, n2']; rfl
+    · rename_i hdead; exact absurd x hdead
+
+/-- the reply reaches `h` when `h` is the first handler accepting the datagram and its `handle` just marks it (the shape of every
+reply handler of the library; `on_handled` may then do anything `Quiet`) -/
+theorem answered_when_first_match (P : Prog σ) (h : Nat) (hq : Quiet P h) (d : Dgram) (e : Engine σ)
+    (hfirst : e.handlers.find? (fun g => (P.spec g).canHandle d) = some h)
+    (hacts : ((P.spec h).handle e.client d).acts = [.markRemove]) (hnr : ((P.spec h).handle e.client d).raises = false) :
+    Answered h (dispatch P d e).1 := by
+  cases d with
+  | raw v => exact answered_at_level P h hq True none (fun f hf => by cases hf) _ e hfirst hacts hnr
+  | pkt i =>
+    exact answered_at_level P h hq (Unanswered P h i) (some (dispatch P i))
+      (fun f hf e' => by cases hf; exact dispatch_q P h hq i e') _ e hfirst hacts hnr
+
+/-- ... or when the datagram is a `<PACKT>` whose first acceptor unwraps it (GeckoPacketProtocolHandler) and `h` is the first
+handler accepting the content: the way every reply reaches a request handler of the real client -/
+theorem answered_inside_packet (P : Prog σ) (h g : Nat) (hq : Quiet P h) (i : Dgram) (e : Engine σ)
+    (hfirst : e.handlers.find? (fun g => (P.spec g).canHandle (.pkt i)) = some g)
+    (hacts : ((P.spec g).handle e.client (.pkt i)).acts = [.unwrap]) (hnr : ((P.spec g).handle e.client (.pkt i)).raises = false)
+    (hfirst2 : e.handlers.find? (fun g => (P.spec g).canHandle i) = some h)
+    (hacts2 : ∀ c, ((P.spec h).handle c i).acts = [.markRemove]) (hnr2 : ∀ c, ((P.spec h).handle c i).raises = false) :
+    Answered h (dispatch P (.pkt i) e).1 :=
+  answered_through_packet P h hq i e g hfirst hacts hnr
+    (answered_when_first_match P h hq i _ hfirst2 (hacts2 _) (hnr2 _))
+
+/-- once removed it stays removed and nothing is ever queued for it again, whatever the environment does and for any number of
+further steps (the client not re-using the instance): "no further transmission" -/
+theorem removed_stays_silent (P : Prog σ) (h : Nat) (hq : Quiet P h) (e : Engine σ) (steps : List Step)
+    (hsteps : ∀ s ∈ steps, s.mentions h = false) (hgone : h ∉ e.handlers) :
+    h ∉ (run P e steps).1.handlers ∧ enqsOf h (run P e steps).2 = [] :=
+  run_gone P h hq steps e hsteps hgone
+
+/-! ## retry_exact -/
+
+/-- **retry**: a request handler `h` with timeout `T > 0`, `N` retries and the default `on_retry_failed`, already transmitted once
+to `dst` (so `last_destination = dst`) with its timer started at `s0`, that nobody answers (`StepOK`: no datagram of the run, at
+any nesting level, is accepted by `h`) and that no callback or client call touches (`Quiet`, `StepOK`), in an engine that cannot die
+(`NoDeath`) and whose iterations advance the clock by at most `Δ` each ("iterates at least once per `Δ`"; in the code
+`Δ` = socket timeout 50 ms + processing):  for EVERY such run, with `k` = number of `queue_send` calls made for `h`,
+  * `k ≤ N` and every one of them is `(h, dst)` — never more than `N` retransmissions, all to the original destination;
+  * while `h` is registered: `k + retries left = N` and the clock is at most `s0 + (N+1)·(T+Δ)`;
+  * once `h` is not registered: `k = N` exactly, and the clock is beyond `s0 + (N+1)·T` (it was not removed early).
+Hence at any time later than `s0 + (N+1)(T+Δ)` the handler is gone after exactly `N` retransmissions (1 + N datagrams on the wire
+with the initial one, by `fifo_sends`); `retry_last_timeout` says it goes in the very iteration that sees the last timeout. -/
+theorem retry_exact (P : Prog σ) (h T N dst s0 Δ : Nat) (hq : Quiet P h) (hnd : NoDeath P)
+    (hT : (P.spec h).timeout = T) (hTpos : 0 < T) (hf : (P.spec h).onFail = .remove)
+    (e : Engine σ) (ha : e.alive = true) (hreg : h ∈ e.handlers)
+    (hst : e.hs h = ⟨s0, N, false, some dst⟩) (hclk : e.clock ≤ s0 + T)
+    (hqd : ∀ x ∈ e.sendq, x.1 = h → x.2 = some dst)
+    (steps : List Step) (hok : ∀ s ∈ steps, StepOK P h Δ s) :
+    (enqsOf h (run P e steps).2).length ≤ N ∧
+    (∀ x ∈ enqsOf h (run P e steps).2, x = (h, some dst)) ∧
+    (h ∈ (run P e steps).1.handlers →
+      (enqsOf h (run P e steps).2).length + ((run P e steps).1.hs h).retries = N ∧
+      (run P e steps).1.clock ≤ s0 + (N + 1) * (T + Δ)) ∧
+    (h ∉ (run P e steps).1.handlers →
+      (enqsOf h (run P e steps).2).length = N ∧ s0 + (N + 1) * T < (run P e steps).1.clock) := by
+  have inv0 : RInv h T N dst s0 Δ e 0 := by
+    refine ⟨ha, hqd, fun _ => ?_, fun x => absurd hreg x⟩
+    rw [hst]
+    exact ⟨rfl, rfl, rfl, hclk, Nat.le_refl _, Nat.le_refl _⟩
+  obtain ⟨inv, hall⟩ := rinv_run P h T N dst s0 Δ hq hnd hT hTpos hf steps e 0 inv0 hok
+  simp only [Nat.zero_add] at inv
+  refine ⟨?_, hall, fun hm => ?_, fun hm => inv.gone hm⟩
+  · by_cases hm : h ∈ (run P e steps).1.handlers
+    · have := (inv.live hm).2.2.1; omega
+    · have := (inv.gone hm).1; omega
+  · obtain ⟨_, _, l3, l4, l5, _⟩ := inv.live hm
+    refine ⟨by omega, ?_⟩
+    have e1 : (((run P e steps).1.hs h).retries + 1) * (T + Δ) = ((run P e steps).1.hs h).retries * (T + Δ) + (T + Δ) := Nat.succ_mul _ _
+    rw [e1] at l5
+    generalize ((run P e steps).1.hs h).retries * (T + Δ) = X at *
+    omega
+
+/-- **removed within one iteration of the (N+1)-th timeout**: in the iteration whose loop phase sees `h` timed out with no retry
+left, `h` is flagged by the default on_retry_failed and dropped by the clean-up of that same iteration; with a retry left it is
+re-queued once, to its recorded destination, its timeout restarting at the loop-phase clock `c`; not timed out (age ≤ T, the
+comparison is strict), nothing happens. -/
+theorem retry_last_timeout (P : Prog σ) (h : Nat) (hq : Quiet P h) (hnd : NoDeath P) (hf : (P.spec h).onFail = .remove)
+    (e : Engine σ) (env : Env) (ha : e.alive = true) (hun : ∀ d, env.dgram = some d → Unanswered P h d)
+    (hreg : h ∈ e.handlers) (hnq : ∀ x ∈ e.sendq, x.1 ≠ h) :
+    let c := e.clock + env.dtPre + env.dtRecv
+    let T := (P.spec h).timeout
+    (0 < T ∧ T < c - (e.hs h).start ∧ (e.hs h).retries = 0 → h ∉ (engineIter P e env).1.handlers ∧ enqsOf h (engineIter P e env).2 = []) ∧
+    (0 < T ∧ T < c - (e.hs h).start ∧ (e.hs h).retries ≠ 0 →
+      enqsOf h (engineIter P e env).2 = [(h, (e.hs h).lastDest)] ∧
+      (engineIter P e env).1.hs h = { e.hs h with retries := (e.hs h).retries - 1, start := c }) ∧
+    (¬ (0 < T ∧ T < c - (e.hs h).start) → (engineIter P e env).1.hs h = e.hs h ∧ enqsOf h (engineIter P e env).2 = []) := by
+  obtain ⟨s, hs, _, _, hst, henq, hmem, _⟩ := iter_summary P h hq hnd hf e env ha hun
+  have hs' : s = e.hs h := by
+    rcases hs with hs | ⟨d, hd, _⟩
+    · exact hs
+    · exact absurd rfl (hnq _ hd)
+  subst hs'
+  simp only [hreg, if_true] at hst henq
+  refine ⟨fun hx => ?_, fun hx => ?_, fun hx => ?_⟩
+  · have hex : expired (P.spec h).timeout (e.clock + env.dtPre + env.dtRecv) (e.hs h) := ⟨hx.1, hx.2.1⟩
+    have ht : tick (P.spec h).timeout (e.clock + env.dtPre + env.dtRecv) (e.hs h) = { e.hs h with remove := true } := by
+      unfold tick; simp [hex, hx.2.2]
+    rw [ht] at hst
+    exact ⟨by rw [hmem, hst]; simp, by rw [henq]; unfold tickEnq; simp [hx.2.2]⟩
+  · have hex : expired (P.spec h).timeout (e.clock + env.dtPre + env.dtRecv) (e.hs h) := ⟨hx.1, hx.2.1⟩
+    exact ⟨by rw [henq]; unfold tickEnq; simp [hex, hx.2.2], by rw [hst]; unfold tick; simp [hex, hx.2.2]⟩
+  · have hex : ¬ expired (P.spec h).timeout (e.clock + env.dtPre + env.dtRecv) (e.hs h) := hx
+    exact ⟨by rw [hst]; unfold tick; simp [hex], by rw [henq]; unfold tickEnq; simp [hex]⟩
+
+/-- a handler with timeout 0 never times out: the loop phase never touches it -/
+theorem timeout_zero_never (P : Prog σ) (h : Nat) (e : Engine σ) (h0 : (P.spec h).timeout = 0) :
+    handlerLoop P h e = (e, [], false) := by
+  unfold handlerLoop timedOut
+  simp [h0]
+
+/-! ## handshake_completes -/
+
+/-- **the handshake completes**: version → channel → config → status block.  Loss pattern: before each reply ANY events may
+occur at the client (duplicates of earlier replies, stray segments, timeouts of the current request) as long as the current
+request times out at most `budget` times (one attempt per step gets through); in the block stage any genuine segments of the
+spa's chain, lost / duplicated / re-ordered, and timeouts, as long as the request handler survives them (`survives_within_budget`:
+it does when timeouts + final segments ≤ budget), followed by one clean delivery of the chain.  Then the client is connected, its
+block has the spa's bytes installed (C01's `sync_install_or_nothing`), each simple request was transmitted 1 + (its timeouts)
+times and the block request at most 1 + budget times. -/
+theorem handshake_completes (spa cli : Block) (start len budget : Nat) (hlen : 0 < len)
+    (preV preC preF : List HEv) (preB : List Ev)
+    (hV : HEv.svers ∉ preV) (hVt : preV.count .timeout ≤ budget)
+    (hC : HEv.chcur ∉ preC) (hCt : preC.count .timeout ≤ budget)
+    (hF : HEv.files ∉ preF) (hFt : preF.count .timeout ≤ budget)
+    (hgen : ∀ s, Ev.seg s ∈ preB → s ∈ simChain spa start len)
+    (hsurv : ((SyncAsm.start cli budget).run start preB).live = true ∨ ((SyncAsm.start cli budget).run start preB).installed = true) :
+    let evs := preV ++ [.svers] ++ (preC ++ [.chcur] ++ (preF ++ [.files] ++ (preB ++ (simChain spa start len).map Ev.seg).map liftEv))
+    let r := (HS.init cli budget).run cli budget start evs
+    r.stage = .connected ∧ r.asm.cli = replaceSeg cli start (C01.spaRun spa start len) ∧
+    r.sendsV = 1 + preV.count .timeout ∧ r.sendsC = 1 + preC.count .timeout ∧ r.sendsF = 1 + preF.count .timeout ∧
+    r.asm.sends ≤ 1 + budget := by
+  intro evs r
+  have e1 := pass_version cli budget start preV (HS.init cli budget) rfl hV hVt
+  have e2 := pass_channel cli budget start preC
+    { stage := .channel, retries := budget, sendsV := (HS.init cli budget).sendsV + preV.count .timeout, sendsC := 1,
+      sendsF := (HS.init cli budget).sendsF, asm := (HS.init cli budget).asm } rfl hC hCt
+  have e3 := pass_config cli budget start preF
+    { stage := .config, retries := budget, sendsV := (HS.init cli budget).sendsV + preV.count .timeout, sendsC := 1 + preC.count .timeout,
+      sendsF := 1, asm := (HS.init cli budget).asm } rfl hF hFt
+  have hr : r = HS.run { stage := .block, retries := budget - preF.count .timeout, sendsV := (HS.init cli budget).sendsV + preV.count .timeout,
+                         sendsC := 1 + preC.count .timeout, sendsF := 1 + preF.count .timeout, asm := SyncAsm.start cli budget }
+      cli budget start ((preB ++ (simChain spa start len).map Ev.seg).map liftEv) := by
+    show (HS.init cli budget).run cli budget start evs = _
+    simp only [evs]
+    rw [HS.run_append, e1, HS.run_append, e2, HS.run_append, e3]
+  obtain ⟨a1, a2, a3, a4, a5⟩ := stage_block cli budget start (preB ++ (simChain spa start len).map Ev.seg)
+    { stage := .block, retries := budget - preF.count .timeout, sendsV := (HS.init cli budget).sendsV + preV.count .timeout,
+      sendsC := 1 + preC.count .timeout, sendsF := 1 + preF.count .timeout, asm := SyncAsm.start cli budget }
+    (by simp [stageOf, SyncAsm.start]) (by intro x; simp [SyncAsm.start] at x) (Or.inl rfl)
+  obtain ⟨bi, bc, bs⟩ := block_completes spa cli start len budget hlen preB hgen hsurv
+  rw [hr]
+  refine ⟨?_, ?_, ?_, ?_, ?_, ?_⟩
+  · rw [a2]; unfold stageOf; simp only; rw [bi]; rfl
+  · rw [a1]; exact bc
+  · rw [a3]; simp [HS.init]
+  · rw [a4]
+  · rw [a5]
+  · rw [a1]; exact bs
+
+/-- with the full request of the real client (start 0, the whole block): the client's block IS the simulator's block -/
+theorem handshake_block_identical (spa cli : Block) (n budget : Nat) (hn : 0 < n) (hs : spa.length = n) (hc : cli.length = n)
+    (preV preC preF : List HEv) (preB : List Ev)
+    (hV : HEv.svers ∉ preV) (hVt : preV.count .timeout ≤ budget)
+    (hC : HEv.chcur ∉ preC) (hCt : preC.count .timeout ≤ budget)
+    (hF : HEv.files ∉ preF) (hFt : preF.count .timeout ≤ budget)
+    (hgen : ∀ s, Ev.seg s ∈ preB → s ∈ simChain spa 0 n)
+    (hsurv : ((SyncAsm.start cli budget).run 0 preB).live = true ∨ ((SyncAsm.start cli budget).run 0 preB).installed = true) :
+    let r := (HS.init cli budget).run cli budget 0
+      (preV ++ [.svers] ++ (preC ++ [.chcur] ++ (preF ++ [.files] ++ (preB ++ (simChain spa 0 n).map Ev.seg).map liftEv)))
+    r.stage = .connected ∧ r.asm.cli = spa := by
+  intro r
+  obtain ⟨h1, h2, _⟩ := handshake_completes spa cli 0 n budget hn preV preC preF preB hV hVt hC hCt hF hFt hgen hsurv
+  refine ⟨h1, ?_⟩
+  show r.asm.cli = spa
+  rw [h2]
+  obtain ⟨b1, b2, _⟩ := C01.installed_bytes spa cli n 0 n hs hc (by omega)
+  apply List.ext_getElem?
+  intro i
+  by_cases hi : i < n
+  · exact b2 i (Nat.zero_le _) (by omega)
+  · rw [List.getElem?_eq_none (by rw [b1]; omega), List.getElem?_eq_none (by rw [hs]; omega)]
+
+/-- a sufficient, checkable form of "within the retry budget" for the block stage -/
+theorem block_survives (cli : Block) (start budget : Nat) (preB : List Ev) (hcost : evsCost preB ≤ budget) :
+    ((SyncAsm.start cli budget).run start preB).live = true ∨ ((SyncAsm.start cli budget).run start preB).installed = true :=
+  survives_within_budget start preB (SyncAsm.start cli budget) (Or.inl rfl) (fun _ => hcost)
+
+/-! ## non-vacuity: a concrete program on which every hypothesis above is met -/
+
+/-- handlers: 0 = packet handler (accepts any `<PACKT>`, unwraps), 1 = a request (accepts its own verb 1 and the reply verb 2; the
+reply marks it and its on_handled creates, registers and queues the next request 3), 2 = an overlapping acceptor of verb 2
+registered later, 3 = the next request, 4 = a handler whose `handle` raises -/
+def exSpec (h : Nat) : Spec Nat :=
+  match h with
+  | 0 => { canHandle := fun d => match d with | .pkt _ => true | .raw _ => false
+           timeout := 0, retries := 0, onFail := .none, sendable := false
+           handle := fun c _ => ⟨c, [.unwrap], false⟩, onHandled := fun c _ => ⟨c, [], false⟩ }
+  | 1 => { canHandle := fun d => d == .raw 1 || d == .raw 2
+           timeout := 100000, retries := 2, onFail := .remove, sendable := true
+           handle := fun c d => ⟨c + 1, if d == .raw 2 then [.markRemove] else [], false⟩
+           onHandled := fun c d => ⟨c, if d == .raw 2 then [.create 3, .add 3, .send 3 (some 7)] else [], false⟩ }
+  | 2 => { canHandle := fun d => d == .raw 2 || d == .raw 3
+           timeout := 0, retries := 0, onFail := .none, sendable := true
+           handle := fun c _ => ⟨c + 10, [], false⟩, onHandled := fun c _ => ⟨c, [], false⟩ }
+  | 3 => { canHandle := fun d => d == .raw 3
+           timeout := 100000, retries := 1, onFail := .remove, sendable := true
+           handle := fun c _ => ⟨c, [.markRemove], false⟩, onHandled := fun c _ => ⟨c, [], false⟩ }
+  | 4 => { canHandle := fun d => d == .raw 4
+           timeout := 15000, retries := 2, onFail := .remove, sendable := true
+           handle := fun c _ => ⟨c + 100, [], true⟩, onHandled := fun c _ => ⟨c, [], false⟩ }
+  | _ => { canHandle := fun _ => false, timeout := 0, retries := 0, onFail := .none, sendable := true
+           handle := fun c _ => ⟨c, [], false⟩, onHandled := fun c _ => ⟨c, [], false⟩ }
+
+def exP : Prog Nat := { spec := exSpec, loopFunc := fun c => (c, false) }
+
+/-- a new socket at clock 0 with handlers 0, 1, 2, 4 registered in this order, every instance constructed at clock 0 -/
+def exE : Engine Nat :=
+  { (Engine.new (fun h => fresh exP h 0) 0 0) with handlers := [0, 1, 2, 4] }
+
+/-- an iteration that receives nothing, `dt` µs after the previous one -/
+def idle (dt : Nat) : Step := .iter ⟨dt, 0, none⟩
+
+/-- fifo + pacing on a concrete run: three queue_send calls in one burst leave in call order, 20001 µs apart (the second
+iteration comes 20000 µs after the first transmission: throttled) -/
+example :
+    sents (run exP exE [.queueSend 1 (some 7), .queueSend 2 (some 8), .queueSend 1 (some 9),
+      idle 20001, idle 20000, idle 1, idle 20001]).2 = [(1, 7), (2, 8), (1, 9)] ∧
+    sentTimes (run exP exE [.queueSend 1 (some 7), .queueSend 2 (some 8), .queueSend 1 (some 9),
+      idle 20001, idle 20000, idle 1, idle 20001]).2 = [20001, 40002, 60003] := by decide
+
+example : exE.lastSend ≤ exE.clock := by decide
+
+/-- first match: verb 2 is accepted by handlers 1 and 2; handler 1 (registered first, not at the head) gets it -/
+example : dispatchWith exP none (.raw 2) exE = invoke exP none 1 (.raw 2) exE :=
+  first_match exP none (.raw 2) exE [0] [2, 4] 1 rfl (by decide) (by decide)
+
+example : (dispatch exP (.raw 2) exE).2 = [.handled 1 (.raw 2), .enq 3 (some 7)] := by decide
+
+/-- nested: the packet goes to handler 0, its content to handler 1 -/
+example : (dispatch exP (.pkt (.raw 2)) exE).2 = [.handled 0 (.pkt (.raw 2)), .handled 1 (.raw 2), .enq 3 (some 7)] := by decide
+
+example : dispatchWith exP none (.raw 9) exE = (exE, [.unhandled (.raw 9)]) :=
+  first_match_none exP none (.raw 9) exE (by decide)
+
+/-- exception isolation: handler 4 raises; only the client state it touched differs -/
+example : invoke exP none 4 (.raw 4) exE = ({ exE with client := 100 }, [.handled 4 (.raw 4), .raised 4]) :=
+  exception_isolated exP none 4 (.raw 4) exE rfl rfl
+
+theorem exP_noDeath : NoDeath exP :=
+  ⟨fun g => by
+    unfold exP exSpec
+    match g with
+    | 0 | 1 | 2 | 3 | 4 => simp
+    | _ + 5 => simp, fun _ => rfl⟩
+
+theorem exP_quiet1 : Quiet exP 1 := by
+  intro g c d
+  unfold exP exSpec
+  match g with
+  | 0 => simp [Act.touches]
+  | 1 =>
+    simp only
+    by_cases hd : (d == Dgram.raw 2) = true <;> simp [hd, Act.touches]
+  | 2 => simp
+  | 3 => simp [Act.touches]
+  | 4 => simp
+  | _ + 5 => simp
+
+/-- answered: the reply (verb 2, inside a packet) reaches request 1 → gone at this clean-up, nothing queued for it, the next
+request 3 registered and queued -/
+example : Answered 1 (afterRecv exP exE ⟨0, 1000, some (.pkt (.raw 2))⟩).1 := by unfold Answered; decide
+
+example : (engineIter exP exE ⟨0, 1000, some (.pkt (.raw 2))⟩).1.handlers = [0, 2, 4, 3] ∧
+    enqsOf 1 (engineIter exP exE ⟨0, 1000, some (.pkt (.raw 2))⟩).2 = [] := by decide
+
+/-- retry: request 1 (T = 100 ms, N = 2), transmitted once to 7, never answered, engine iterating every 50 ms (Δ = 50000) -/
+def exR : Engine Nat := { exE with hs := upd exE.hs 1 ⟨0, 2, false, some 7⟩ }
+
+def exSteps : List Step := List.replicate 9 (idle 50000) ++ [.iter ⟨0, 1, some (.raw 9)⟩]
+
+theorem exSteps_ok : ∀ s ∈ exSteps, StepOK exP 1 50000 s := by
+  intro s hs
+  simp only [exSteps, List.mem_append, List.mem_replicate, List.mem_singleton] at hs
+  rcases hs with ⟨_, rfl⟩ | rfl
+  · exact ⟨by decide, fun d hd => by cases hd⟩
+  · refine ⟨by decide, fun d hd => ?_⟩
+    have : d = .raw 9 := by cases hd; rfl
+    subst this
+    show (exP.spec 1).canHandle (.raw 9) = false
+    decide
+
+/-- all hypotheses of `retry_exact` hold here, and its conclusion is sharp: exactly 2 re-queues to 7, then removed (at 450 ms,
+inside (300, 450] = (s0 + 3T, s0 + 3(T+Δ)]) -/
+example :
+    (enqsOf 1 (run exP exR exSteps).2).length = 2 ∧ 100000 * 3 < (run exP exR exSteps).1.clock :=
+  (retry_exact exP 1 100000 2 7 0 50000 exP_quiet1 exP_noDeath rfl (by decide) rfl exR rfl (by decide) rfl (by decide)
+    (by intro x hx; cases hx) exSteps exSteps_ok).2.2.2 (by decide)
+
+example : enqsOf 1 (run exP exR exSteps).2 = [(1, some 7), (1, some 7)] ∧ (run exP exR exSteps).1.handlers = [0, 2] ∧
+    (run exP exR exSteps).1.clock = 450001 := by decide
+
+/-- the model mirrors two quirks of the code (both confirmed on the real engine by the harness):
+(1) handler 4 (T = 15 ms, shorter than the throttle period) is queued behind another datagram and times out BEFORE its
+first transmission: `retry` queues `(handler, last_destination = None)`, the entry is popped and dropped — of the 1 + 2 datagrams
+only 2 reach the wire although 2 retries were consumed -/
+example :
+    let r := run exP exE [.queueSend 1 (some 7), .queueSend 4 (some 9), idle 20001, idle 20001, idle 20001, idle 20001]
+    failedSends r.2 = [(4, none)] ∧ sents r.2 = [(1, 7), (4, 9), (4, 9)] ∧ 4 ∉ r.1.handlers ∧ (enqsOf 4 r.2).length = 1 + 2 := by decide
+
+/-- (2) an `on_retry_failed` that raises is not caught in `_thread_func`: the engine stops -/
+def exSpecX (h : Nat) : Spec Nat := if h = 1 then { exSpec 1 with retries := 0, onFail := .raises } else exSpec h
+
+example : (run { exP with spec := exSpecX } { exE with hs := upd exE.hs 1 ⟨0, 0, false, some 7⟩ } [idle 100001, idle 1]).1.alive = false ∧
+    (run { exP with spec := exSpecX } { exE with hs := upd exE.hs 1 ⟨0, 0, false, some 7⟩ } [idle 100001, idle 1]).2 =
+      [.timedOut 1, .failed 1, .died] := by decide
+
+/-- handshake: on a 100-byte block, a 78-byte request (2 segments), budget 1: the version request times out once, a duplicate
+SVERS and a timeout precede CHCUR, the first block attempt loses its final segment (segment 0 arrives, then the timeout; the
+assembly state survives), then the chain arrives cleanly -/
+example :
+    ((HS.init (List.replicate 100 0) 1).run (List.replicate 100 0) 1 3
+      ([.timeout] ++ [.svers] ++ ([.svers, .timeout] ++ [.chcur] ++ ([] ++ [.files] ++
+        ([Ev.seg (simSeg C01.exSpa 3 78 0), Ev.timeout] ++ (simChain C01.exSpa 3 78).map Ev.seg).map liftEv)))).stage = .connected :=
+  (handshake_completes C01.exSpa (List.replicate 100 0) 3 78 1 (by decide) [.timeout] [.svers, .timeout] []
+    [Ev.seg (simSeg C01.exSpa 3 78 0), Ev.timeout] (by decide) (by decide) (by decide) (by decide) (by decide) (by decide)
+    (by
+      intro s hs
+      simp only [List.mem_cons, Ev.seg.injEq, List.mem_nil_iff, or_false] at hs
+      rcases hs with rfl | hs
+      · exact (mem_simChain _ _ _ _).2 ⟨0, by decide, rfl⟩
+      · cases hs)
+    (block_survives _ 3 1 _ (by decide))).1
+
+example : evsCost [Ev.seg (simSeg C01.exSpa 3 78 0), Ev.timeout] = 1 := by decide
+
+/-- and beyond the budget the model stalls (the handshake theorem's hypothesis is not vacuous) -/
+example : ((HS.init (List.replicate 100 0) 1).run (List.replicate 100 0) 1 3 [.timeout, .timeout, .svers]).stage = .stalled := by decide
 
 end GeckoModel.C20
